@@ -11,8 +11,9 @@ theorem sinv_gLock {s s' : St} {i p : Nat} {k prog held} (hinv : SInv s) (ht : s
   · rename_i hlk
     have hln := lock_none_of hlk
     split at hstep
-    · simp only [Option.some.injEq] at hstep; subst hstep
-      exact SInv_frame hinv ht rfl (Or.inl rfl) (frame_miss ..) rfl (by simp) trivial
+    · split at hstep <;> (simp only [Option.some.injEq] at hstep; subst hstep)
+      · exact SInv_frame hinv ht rfl (Or.inl rfl) ⟨rfl, rfl, fun _ => rfl⟩ rfl (by simp) trivial
+      · exact SInv_frame hinv ht rfl (Or.inl rfl) (frame_miss ..) rfl (by simp) trivial
     · rename_i h hlook
       have hmem := lookup_mem hlook
       have hopen := hinv.keysOpen h hmem
@@ -100,10 +101,13 @@ theorem sinv_gDrain {s s' : St} {i p : Nat} {k h prog held} (hinv : SInv s) (ht 
       · subst hxe
         exact open_set_same rfl hch (by rw [hch] at hcx; simp at hcx; subst hcx; exact hox)
       · exact open_set_other rfl hxe ⟨cx, hcx, hox⟩
-  · simp only [Option.some.injEq] at hstep; subst hstep
-    refine SInv_lock hinv ht hl (by simp [miss, setTask]) (Or.inl rfl) (Or.inl ⟨rfl, rfl⟩) (by simp) trivial ?_ hinv.keysNodup
-    intro x hx
-    exact open_same rfl (hinv.keysOpen x hx)
+  · split at hstep <;> (simp only [Option.some.injEq] at hstep; subst hstep)
+    · refine SInv_lock hinv ht hl (by simp [setTask]) (Or.inl rfl) (Or.inl ⟨rfl, rfl⟩) (by simp) trivial ?_ hinv.keysNodup
+      intro x hx
+      exact open_same rfl (hinv.keysOpen x hx)
+    · refine SInv_lock hinv ht hl (by simp [miss, setTask]) (Or.inl rfl) (Or.inl ⟨rfl, rfl⟩) (by simp) trivial ?_ hinv.keysNodup
+      intro x hx
+      exact open_same rfl (hinv.keysOpen x hx)
   · rename_i hr; exact absurd hr hnb.1
   · rename_i hr; exact absurd hr hnb.2
 
